@@ -193,7 +193,8 @@ def check_rayleigh_schroedinger(p: Problem, Ht):
     E = p.E
     for b in p.fd:
         for i in range(off[b], off[b + 1]):
-            if any(E[j] == E[i] for j in range(p.N) if j != i):
+            tol_ = p.notes.get("atol_boundary", 0.0) if not p.exact else 0.0
+            if any(E[j] == E[i] or (tol_ and abs(E[j] - E[i]) <= tol_) for j in range(p.N) if j != i):
                 continue
             for kpar in range(p.n_par):
                 e1 = tuple(1 if q == kpar else 0 for q in range(p.n_par))
